@@ -278,6 +278,14 @@ class MerkleProofV:
     def clone(self):
         return MerkleProofV(self.hashes, self.H)
 
+    def eq_formula(self, engine, other, bound):
+        if not isinstance(other, MerkleProofV) or len(self.hashes) != len(other.hashes):
+            return False
+        c = True
+        for x, y in zip(self.hashes, other.hashes):
+            c = b_and(c, M.eq_formula(engine, x, y, bound))
+        return c
+
     def root(self, leaf_indices, leaf_hashes, total):
         """returns hash or None (Err)"""
         if len(leaf_indices) != len(leaf_hashes):
